@@ -317,6 +317,9 @@ func (x *Exec) loopModifiedRegions(fr *Frame, L *Loop) (map[string]Sort, bool) {
 				}
 				return
 			}
+			if fc := x.DB.For(fn); fc != nil && fc.HasSpec() && fc.Opts["countcalls"] != "" {
+				regs[dynCallsRegion] = SArr(SRef, SIdx)
+			}
 			if fc := x.DB.For(fn); fc != nil && fc.HasSpec() && !fc.AssignsAll && len(fc.Assigns) == 0 {
 				// pure by contract, may allocate results
 				res := fn.Signature.Results()
